@@ -167,7 +167,21 @@ class Fsck(object):
             self.err("odd number of stubs")
 
     def _walk_level(self, root_block, parent_block, prefix, refs, depth):
-        """Walk one sibling BST (iteratively), then children."""
+        """Walk the whole tree below one sibling BST: an explicit work list of levels (no
+        recursion: stored LRUs can be thousands of stems deep)."""
+        todo = [(root_block, parent_block, prefix, depth)]
+        while todo:
+            rb, pb, pf, dp = todo.pop()
+            for n in self._walk_siblings(rb, pb, pf, refs):
+                if n.child:
+                    refs[n.child] += 1
+                    if dp > 100000:
+                        self.err("depth bound")
+                        continue
+                    todo.append((n.child, n.block, n.lru, dp + 1))
+
+    def _walk_siblings(self, root_block, parent_block, prefix, refs):
+        """Walk one sibling BST (iteratively); returns its nodes."""
         # collect siblings with bounds
         stack = [(root_block, None, None)]
         level = []
@@ -202,13 +216,7 @@ class Fsck(object):
             if n.right:
                 refs[n.right] += 1
                 stack.append((n.right, n.stem, hi))
-        for n in level:
-            if n.child:
-                refs[n.child] += 1
-                if depth > 5000:
-                    self.err("depth bound")
-                    continue
-                self._walk_level(n.child, n.block, n.lru, refs, depth + 1)
+        return level
 
     # ------------------------------------------------------------------
     def lrus(self):
